@@ -11,7 +11,7 @@ import sys
 
 from vlib import gen as G
 from vlib import refxpath as RX
-from vlib.spec import S, Pos, build, preorder, spec_json, child_slots, deep_copy
+from vlib.spec import S, Pos, build, preorder, spec_json, child_slots, deep_copy, node_at
 from vlib.universe import core_universe
 
 LEVEL = "exploration"
@@ -24,7 +24,7 @@ RULE = (
     "(xpath text, tree fingerprint)"
 )
 ASSUMPTIONS = ["reference evaluator encodes the documented semantics (virtual super-root; the root satisfies no field/index constraint)"]
-MUST_SEE = ["refused_text_before_compilation", "index_ge_257_match", "second_tree_sharing_nodes", "late_defined_class", "index_ge_10_match", "first_step_field", "root_matches", "two_anywhere", "nonempty", "relative_spelling", "index_only_step"]
+MUST_SEE = ["deep_3000_xpath_queries", "equal_twin_trees_matched_in_turn", "refused_text_before_compilation", "index_ge_257_match", "second_tree_sharing_nodes", "late_defined_class", "index_ge_10_match", "first_step_field", "root_matches", "two_anywhere", "nonempty", "relative_spelling", "index_only_step"]
 CONFIG = {
     "quick": {"shards": 16, "trees": 50, "xpaths": 70, "watchdog_s": 300},
     "thorough": {"shards": 32, "trees": 300, "xpaths": 120, "watchdog_s": 3000},
@@ -42,6 +42,44 @@ def make_tree(rng, U, case, wide: bool):
         return S(f"{P}Stmt", {}, {"body": body + (mix,), "next": S(f"{P}Stmt", {}, {"body": (S(f"{P}Leaf"),)})})
     tg = G.TreeGen(rng, U, max_nodes=30, max_depth=6, max_width=12, share=0.0, twin=0.2, p_origin=0.1, hostile=0.0)
     return tg.tree()
+
+
+def deep_leg(ctx, U, ASTXpath):
+    """findall / match are promised for all trees: a chain 3000 levels deep under a list, searched and matched with the
+    interpreter's default recursion limit ('//' in first and in later steps)"""
+    P = U.P
+    tip = U.cls[f"{P}Leaf"](v=777)
+    n, chain = tip, [tip]
+    for _ in range(3000):
+        n = U.cls[f"{P}Un"](child=n)
+        chain.append(n)
+    top = U.cls[f"{P}List"](items=(U.cls[f"{P}Leaf"](v=1), n))
+    tree = top.to_tree()
+    old = sys.getrecursionlimit()
+    sys.setrecursionlimit(1000)
+    try:
+        for text, exp_find, matching, not_matching in (
+            (f"/{P}List//{P}Leaf", 2, [tip, top.items[0]], [chain[5], top]),
+            (f"/{P}List/@items[1]{P}Un//@child {P}Leaf", 1, [tip], [top.items[0], chain[1]]),
+            (f"//{P}Un//{P}Leaf", 1, [tip], [top.items[0]]),
+            (f"/{P}List//{P}Un/@child {P}Un", 2999, [chain[1], chain[1500], chain[2999]], [tip, chain[3000]]),
+            (f"/{P}Call//{P}Leaf", 0, [], [tip, chain[7]]),
+            (f"/{P}Leaf//{P}Leaf", 0, [], [tip]),
+        ):
+            ctx.evaluations += 1
+            ctx.count("deep_3000_xpath_queries")
+            try:
+                xp = ASTXpath(text)
+                got = (len(list(xp.findall(top))), [xp.match(tree, x) for x in matching], [xp.match(top, x) for x in not_matching])
+            except RecursionError:
+                got = "RecursionError"
+            exp = (exp_find, [True] * len(matching), [False] * len(not_matching))
+            if got != exp:
+                ctx.violation("deep-tree", f"{text} on a tree 3000 levels deep gave {got!r}, expected {exp!r}", {"depth": 3000, "xpath": text})
+    finally:
+        sys.setrecursionlimit(old)
+    del tree
+    top.detach()
 
 
 def run_shard(ctx):
@@ -71,6 +109,7 @@ def run_shard(ctx):
                 kcache[id(p)] = k
             return k
 
+        twin = [None]
         obj = {}
         for p in pos:
             if p.parent is None:
@@ -152,6 +191,21 @@ def run_shard(ctx):
                 d["match"] = sorted(idx[i] for i in m_ids)
                 d["findall"] = sorted(idx.get(i, "?") for i in got_ids)
                 ctx.violation("findall-vs-match", "findall and match disagree", d)
+            if len(pos) <= 40 and k % 3 == 0:
+                # the same question about a distinct but equal tree (the same text parsed twice), root spelling, right after the
+                # first tree was asked - and then the first tree again
+                if twin[0] is None:
+                    twin[0] = build(U, deep_copy(s))
+                    ctx.count("equal_twin_trees_matched_in_turn")
+                try:
+                    m2 = [i for i, p in enumerate(pos) if xp.match(twin[0], node_at(twin[0], p.path))]
+                    m3 = [i for i, p in enumerate(pos) if xp.match(root, obj[id(p)])]
+                except Exception as e:  # noqa: BLE001
+                    ctx.violation("match-twin-tree", f"match on an equal tree asked right after the first one raised {type(e).__name__}: {e}", detail)
+                    continue
+                e2 = sorted(idx[i] for i in exp_ids)
+                if m2 != e2 or m3 != e2:
+                    ctx.violation("match-twin-tree", "match gives other answers on an equal tree asked right after the first one (or on the first one asked again)", dict(detail, twin=m2, again=m3, expected=e2))
             first = got[0] if got else None
             try:
                 # the compiled object is used again (second search, front-ends given the object or the text)
@@ -185,6 +239,9 @@ def run_shard(ctx):
             if k < 2 and case == 0 and ctx.shard == 0:
                 ctx.sample({"xpath": text, "expected_positions": [list(p.path) for p in exp]})
         ctx.count("trees")
+
+    if ctx.only_case is None and ctx.shard % 4 == 1:
+        deep_leg(ctx, U, ASTXpath)
 
     # ---- a class defined after an xpath naming it was first looked at ----
     name = f"{P}Late7"
